@@ -1,4 +1,7 @@
 import SmtpV.Props.C08
+import SmtpV.Props.C08Cut
 #print axioms SmtpV.Props.C08.C08_lifecycle
 #print axioms SmtpV.Props.C08.C08_lifecycle_visible
 #print axioms SmtpV.Props.C08.C08_ends_closed
+#print axioms SmtpV.Props.C08.C08_cut_line_not_executed
+#print axioms SmtpV.Props.C08.C08_cut_line_not_read
